@@ -73,6 +73,9 @@ type UFault struct {
 	Times int `json:"times,omitempty"`
 	// Skip: let this many matching calls pass first.
 	Skip int `json:"skip,omitempty"`
+	// Where: the fault only matches calls whose stack contains this text
+	// (e.g. the combiner call site a reduce function is invoked from).
+	Where string `json:"where,omitempty"`
 }
 
 // Oracle selects which checks the child performs.
